@@ -281,7 +281,61 @@ func tableLeaf(r *hx.Rng) []byte {
 		return e
 	}
 	var b []byte
-	switch r.Intn(14) {
+	switch r.Intn(17) {
+	case 14: // sidx: no size guard; reference_count (16 bit) may say more or less than the box holds
+		ver := byte(r.Intn(2))
+		cnt := []int{n, n, n + 1, n - 1, 0, 2 * n, 65535}[r.Intn(7)]
+		if cnt < 0 {
+			cnt = 0
+		}
+		var refs []byte
+		for i := 0; i < n; i++ {
+			refs = cat(refs, u32(100), u32(1000), u32(0x90000000))
+		}
+		if ver == 0 {
+			return fullbox("sidx", 0, 0, u32(1), u32(1000), u32(0), u32(0), u16(0), u16(uint16(cnt)), refs)
+		}
+		return fullbox("sidx", 1, 0, u32(1), u32(1000), u64(0), u64(0), u16(0), u16(uint16(cnt)), refs)
+	case 15: // subs: entry_count and subsample_count against the bytes present
+		ver := byte(r.Intn(2))
+		ecnt := []int{n, n, n + 1, n - 1, 0, 1 << 20}[r.Intn(6)]
+		if ecnt < 0 {
+			ecnt = 0
+		}
+		var es []byte
+		for i := 0; i < n; i++ {
+			ns := r.Pick(0, 1, 2)
+			said := ns
+			if r.Intn(5) == 0 {
+				said = r.Pick(0, ns+1, 65535)
+			}
+			es = cat(es, u32(1), u16(uint16(said)))
+			for j := 0; j < ns; j++ {
+				if ver == 1 {
+					es = cat(es, u32(10))
+				} else {
+					es = cat(es, u16(10))
+				}
+				es = cat(es, []byte{1, 0}, u32(0))
+			}
+		}
+		return fullbox("subs", ver, 0, u32(uint32(ecnt)), es)
+	case 16: // pssh: KID count (version 1) and data length against the bytes present
+		ver := byte(r.Intn(2))
+		sys := make([]byte, 16)
+		dl := r.Pick(0, 1, 5)
+		said := dl
+		if r.Intn(4) == 0 {
+			said = r.Pick(0, dl+1, dl-1, 1<<30)
+			if said < 0 {
+				said = 0
+			}
+		}
+		if ver == 1 {
+			kc := []int{n, n, n + 1, 0, 1 << 24}[r.Intn(5)]
+			return fullbox("pssh", 1, 0, sys, u32(uint32(kc)), make([]byte, 16*n), u32(uint32(said)), make([]byte, dl))
+		}
+		return fullbox("pssh", 0, 0, sys, u32(uint32(said)), make([]byte, dl))
 	case 0:
 		b = fullbox("stts", 0, 0, u32(uint32(n)), ent(2, 1))
 	case 1:
